@@ -269,14 +269,20 @@ def _gen(rng, tier, index):
     d = {"kind": kind, "port": ptype, "dw": dw, "depth": depth, "buffered": rng.random() < 0.3 and depth >= 2}
     n = rng.choice([1, 3, 8, 24, 60, 150]) if tier == "quick" else rng.choice([3, 10, 40, 120, 400])
     am = rng.choice(["seq", "seq", "rand", "dup"])
-    base = rng.getrandbits(16)
+    # word addresses over the whole range of the port (24 address bits; byte addresses on an AXI port): low, straddling the middle
+    # (top address bit), and up to the very top
+    awb = 24 if ptype == "native" else 24 - (dw // 8).bit_length() + 1
+    top = 1 << awb
+    base = rng.choice([rng.getrandbits(min(16, awb - 1)), rng.getrandbits(min(16, awb - 1)), top - n - 4 - rng.getrandbits(6),
+                       top // 2 - rng.randrange(n + 1), top // 2 + rng.getrandbits(8)])
+    base = max(0, min(base, top - n - 4))
     dlm = rng.choice(["zero", "zero", "some"])
     items = []
     for i in range(n):
         if am == "seq":
             a = base + i
         elif am == "rand":
-            a = rng.getrandbits(20)
+            a = rng.getrandbits(awb)
         else:
             a = base + rng.randrange(4)
         it = {"id": i + 1, "address": a, "last": 1 if (i == n - 1 or rng.random() < 0.05) else 0}
